@@ -18,6 +18,8 @@ def corpus():
     out = [{"start": "blank", "ops": []}, {"start": "empty", "ops": []}, {"start": "corpus", "ops": []}]
     out.append({"start": "empty", "ops": [["set", "TITLE", None], ["set", "ATTACKS", None], ["set", "DISPLAYBPM", ":240"], ["set", "ATTACKS", ":LEN=0.5:MODS=drunk"]]})
     out.append({"start": "blank", "ops": [["addchart", ["dance-single", "", "Easy", "1", "0,0", "0000\n0000", ["x", "y:z"]]], ["extradata", 0, ["q"]]]})
+    out.append({"start": "empty", "ops": [["addchart", ["dance-single", "", "Easy", "1", "0,0", "0000", []]], ["addchart", ["dance-double", "", "Hard", "9", "0,0", "00000000", []]],
+                                          ["samechart", 0], ["samechart", 1], ["samechart", 0]]})     # one chart object at several positions of the list
     out.append({"start": "empty", "ops": [["addchart", ["a", "b", "c", "d", "e", "0", ["x"]]], ["ser"], ["extradata", 0, ["y", "z"]], ["ser"], ["extradata", 0, []]]})
     out.append({"start": "empty", "ops": [["set", "A", "x:y;z\\w//c\nd"], ["set", "B", ""], ["addchart", ["a", "b", "c", "d", "e", "", []]]]})
     # note data and fields that are their own strip() yet hold blanks before inner line breaks, other line breaks, a byte order mark
@@ -66,6 +68,8 @@ def gen(rng, i, tier):
                                        ["extraappend", rng.randrange(4), G.rand_value(rng)]]))
         if rng.random() < 0.03:
             ops.append(["extraappend", rng.randrange(4), G.rand_value(rng)])
+        if rng.random() < 0.04:
+            ops.append(["samechart", rng.randrange(4)])      # the same chart object attached once more: the list has one more chart
         if rng.random() < 0.08:
             if rng.random() < 0.5:
                 ops.append(["ser"])
@@ -117,6 +121,8 @@ def build(c):
                 sf.charts.append(mk_chart(op[1]))
             elif op[0] == "delchart":
                 del sf.charts[op[1]]
+            elif op[0] == "samechart":
+                sf.charts.append(sf.charts[op[1]])
             elif op[0] == "reverse":
                 sf.charts.reverse()
             elif op[0] == "replacechart":
